@@ -54,6 +54,7 @@ structure Inv (m : Mode) (segs : List Seg) (st : St) : Prop where
   unsent_sorted : SortedBy m (·.2) st.unsent
   rem_sorted : SortedBy m (startOf m) st.remaining
   pend_bound : st.gotBlocks = true → ∀ b ∈ pending st, ∀ r ∈ b.recs, m.before st.cutoff r.2 = true
+  gotAll_unproc : st.gotAll = true → st.unproc = []
 
 theorem inv_init (m : Mode) (segs : List Seg) : Inv m segs (init m segs) where
   unproc_sub := by
@@ -63,6 +64,7 @@ theorem inv_init (m : Mode) (segs : List Seg) : Inv m segs (init m segs) where
   unsent_sorted := by simp [init, SortedBy]
   rem_sorted := by simp [init, SortedBy]
   pend_bound := by simp [init]
+  gotAll_unproc := by simp [init]
 
 /-! ### refill -/
 
@@ -151,7 +153,7 @@ theorem refill_inv (m : Mode) (segs : List Seg) (hwf : WF segs) (st : St) (h : I
   · split
     · -- no unprocessed segment request left
       rename_i hun
-      refine ⟨⟨?_, ?_, h.unsent_sorted, sortBy_sorted m _ _, ?_⟩, ?_⟩
+      refine ⟨⟨?_, ?_, h.unsent_sorted, sortBy_sorted m _ _, ?_, fun _ => hun⟩, ?_⟩
       · simpa [refillNil] using h.unproc_sub
       · intro b hb
         exact h.rem_sub b ((mem_sortBy m _ _ b).mp hb)
@@ -163,7 +165,7 @@ theorem refill_inv (m : Mode) (segs : List Seg) (hwf : WF segs) (st : St) (h : I
         · exact mem_future.mpr (Or.inr (Or.inl ⟨b, (mem_sortBy m _ _ b).mp hb, hr⟩))
         · simp [pending, refillNil, hun] at hb
     · rename_i front tl hun
-      refine ⟨⟨?_, ?_, h.unsent_sorted, sortBy_sorted m _ _, ?_⟩, ?_⟩
+      refine ⟨⟨?_, ?_, h.unsent_sorted, sortBy_sorted m _ _, ?_, ?_⟩, ?_⟩
       · intro s hs
         exact h.unproc_sub s (List.mem_filter.mp hs).1
       · intro b hb
@@ -174,6 +176,11 @@ theorem refill_inv (m : Mode) (segs : List Seg) (hwf : WF segs) (st : St) (h : I
         · exact h.rem_sub b hb'
       · intro _
         exact pending_refillCons_bound m segs hwf st h.unproc_sub front
+      · intro hg
+        have hg' : st.gotAll = true := hg
+        have := h.gotAll_unproc hg'
+        rw [hun] at this
+        cases this
       · intro x hx
         rcases mem_future.mp hx with hx | ⟨b, hb, hrb⟩ | ⟨b, hb, hrb⟩
         · exact mem_future.mpr (Or.inl hx)
@@ -189,7 +196,11 @@ theorem refill_inv (m : Mode) (segs : List Seg) (hwf : WF segs) (st : St) (h : I
 def fMerged (m : Mode) (mb : Nat) (st : St) : List Rec :=
   merge m (sortRRCs m ((getNextBlocks m st.remaining mb).1.flatMap (·.recs))) st.unsent
 
-def fEnd (m : Mode) (mb : Nat) (st : St) : Nat := clampEnd m (getNextBlocks m st.remaining mb).2 st.cutoff
+/-- `lastBlocks` of this call -/
+def fLast (m : Mode) (mb : Nat) (st : St) : Bool := lastBlocks st (getNextBlocks m st.remaining mb).1.length
+
+def fEnd (m : Mode) (mb : Nat) (st : St) : Nat :=
+  if fLast m mb st then flushEnd m else clampEnd m (getNextBlocks m st.remaining mb).2 st.cutoff
 
 def fOut (m : Mode) (mb : Nat) (st : St) : List Rec := getValidRRCs m (fMerged m mb st) (fEnd m mb st)
 
@@ -205,6 +216,33 @@ theorem fetchRRCs_eq (m : Mode) (mb : Nat) (st : St) :
       else some (fOut m mb st, fNext m mb st) := rfl
 
 theorem pending_fNext (m : Mode) (mb : Nat) (st : St) : pending (fNext m mb st) = pending st := rfl
+
+theorem fEnd_last (m : Mode) (mb : Nat) (st : St) (h : fLast m mb st = true) : fEnd m mb st = flushEnd m := by
+  unfold fEnd; rw [h]; rfl
+
+theorem fEnd_notlast (m : Mode) (mb : Nat) (st : St) (h : fLast m mb st = false) :
+    fEnd m mb st = clampEnd m (getNextBlocks m st.remaining mb).2 st.cutoff := by
+  unfold fEnd; rw [h]; rfl
+
+theorem fLast_gotAll (m : Mode) (mb : Nat) (st : St) (h : fLast m mb st = true) : st.gotAll = true := by
+  unfold fLast lastBlocks at h
+  simp only [Bool.and_eq_true] at h
+  exact h.1
+
+/-- in the last round every remaining block is taken -/
+theorem fLast_rem (m : Mode) (mb : Nat) (st : St) (h : fLast m mb st = true) : (fNext m mb st).remaining = [] := by
+  unfold fLast lastBlocks at h
+  simp only [Bool.and_eq_true, beq_iff_eq] at h
+  show st.remaining.drop (getNextBlocks m st.remaining mb).1.length = []
+  rw [h.2]
+  exact List.drop_length
+
+/-- with no block left and every segment request handed over, the round is the last one -/
+theorem fLast_of_nil (m : Mode) (mb : Nat) (st : St) (hr : st.remaining = []) (hg : st.gotAll = true) :
+    fLast m mb st = true := by
+  unfold fLast lastBlocks
+  rw [hr, hg]
+  rfl
 
 theorem fMerged_sorted (m : Mode) (mb : Nat) (st : St) (hs : SortedBy m (·.2) st.unsent) :
     SortedBy m (·.2) (fMerged m mb st) :=
@@ -246,7 +284,7 @@ theorem fetchRRCs_step (m : Mode) (segs : List Seg) (hwf : WF segs) (mb : Nat) (
     rcases (mem_fMerged m mb st x).mp hx with ⟨b, hb, hr⟩ | hx
     · exact mem_future.mpr (Or.inr (Or.inl ⟨b, mem_next_blocks m mb st b hb, hr⟩))
     · exact mem_future.mpr (Or.inl hx)
-  refine ⟨⟨h.unproc_sub, ?_, ?_, ?_, ?_⟩, ?_, ⟨?_, ?_⟩, ?_⟩
+  refine ⟨⟨h.unproc_sub, ?_, ?_, ?_, ?_, h.gotAll_unproc⟩, ?_, ⟨?_, ?_⟩, ?_⟩
   · intro b hb; exact h.rem_sub b (hrem_sub b hb)
   · exact List.Pairwise.sublist (List.drop_sublist _ _) hms
   · exact List.Pairwise.sublist (List.drop_sublist _ _) h.rem_sorted
@@ -263,12 +301,26 @@ theorem fetchRRCs_step (m : Mode) (segs : List Seg) (hwf : WF segs) (mb : Nat) (
         rw [drop_takeWhile_length]
       rw [hd] at hr
       exact dropWhile_bound m _ _ hms r hr
-    · have hbok : BlockOK b := blockOK_of_mem hwf (h.rem_sub b (hrem_sub b hb))
-      have h1 := rec_nb_start m hbok hrb
-      have h2 := nb_rest_bound m st.remaining mb h.rem_sorted b hb
-      exact clamp_of_nb m _ (nb_trans m h1 h2)
+    · cases hl : fLast m mb st with
+      | true =>
+        -- the last round: no block is left behind
+        rw [fLast_rem m mb st hl] at hb
+        cases hb
+      | false =>
+        rw [fEnd_notlast m mb st hl]
+        have hbok : BlockOK b := blockOK_of_mem hwf (h.rem_sub b (hrem_sub b hb))
+        have h1 := rec_nb_start m hbok hrb
+        have h2 := nb_rest_bound m st.remaining mb h.rem_sorted b hb
+        exact clamp_of_nb m _ (nb_trans m h1 h2)
     · rw [pending_fNext] at hb
-      exact clamp_of_before_cutoff m _ (h.pend_bound hgb b hb r hrb)
+      cases hl : fLast m mb st with
+      | true =>
+        -- the last round: every segment request has handed over its blocks
+        have hun := h.gotAll_unproc (fLast_gotAll m mb st hl)
+        simp [pending, hun] at hb
+      | false =>
+        rw [fEnd_notlast m mb st hl]
+        exact clamp_of_before_cutoff m _ (h.pend_bound hgb b hb r hrb)
   · intro x hx
     rcases hx with hx | hx
     · exact hmerged_future x (hout_sub x hx)
